@@ -3,4 +3,4 @@ From IV Require Import Base.Bytes Model.Sanitize Model.SanitizePolicy Model.Sani
 Extraction Language OCaml.
 Extraction "c18_model.ml" conv_anchor sanitize_style decls_ok decl_head_ok style_tag_filter
   text_to_html matches_plain text_spec hrefs_of allowed go_lower escape_std
-  html_model bm_tokens otoken_inert tag_inert urlinfo_sound scan_start_tag.
+  html_model bm_tokens otoken_inert tag_inert urlinfo_sound scan_start_tag h_tok_style_check.
